@@ -478,3 +478,79 @@ def top_expression(draw, op, d=2):
         toks.append(')')
     toks = fix_bare_slash(toks)
     return {'kind': 'top:' + op, 'expr': render(toks, [' ']), 'ntok': len(toks), 'op': op}
+
+
+# ---------------------------------------------------------------------------------------------------------
+# XSLT 1.0 section 5.2 patterns
+@st.composite
+def step_pattern(draw, d):
+    k = draw(st.integers(0, 9))
+    if k <= 5:
+        toks = draw(name_test('child'))
+        if draw(st.integers(0, 5)) == 0:
+            toks = ['child', '::'] + toks
+    elif k <= 8:
+        toks = draw(name_test('attribute'))
+        toks = (['@'] if draw(st.integers(0, 3)) else ['attribute', '::']) + toks
+    else:
+        toks = draw(st.sampled_from([['node', '(', ')'], ['text', '(', ')'], ['comment', '(', ')'], ['processing-instruction', '(', ')'],
+                                     ['processing-instruction', '(', "'pi'", ')'], ['*']]))
+    is_attr = toks[0] in ('@', 'attribute')
+    for _ in range(draw(st.sampled_from([0, 0, 0, 1, 1, 2]))):
+        p = draw(predicate(d))
+        if '$' in ' '.join(p) or any(t.startswith('$') for t in p):
+            continue
+        if is_attr and _positional(p) and flag('no_positional_on_attr_step'):
+            continue
+        if is_attr and (toks[-1] in ('*', ')') or toks[-1].endswith(':*')) and _positional(p):
+            continue
+        toks += p
+    return toks
+
+
+@st.composite
+def location_path_pattern(draw, d, allow_key=False):
+    head = draw(st.sampled_from(['', '', '', '/', '//', 'id', 'key' if allow_key else '']))
+    toks = []
+    n = draw(st.integers(1, 3))
+    if head == '/':
+        toks = ['/']
+        if draw(st.integers(0, 5)) == 0:
+            return toks
+    elif head == '//':
+        toks = ['//']
+    elif head == 'id':
+        toks = ['id', '(', draw(st.sampled_from(["'k1'", "'k2'", "'k1 k2'", "'zz'"])), ')']
+        if draw(st.integers(0, 2)) == 0:
+            return toks
+        toks.append(draw(st.sampled_from(['/', '//'])))
+    elif head == 'key':
+        toks = ['key', '(', "'kk'", ',', draw(st.sampled_from(["'x'", "'1'", "'k1'", "''"])), ')']
+        if draw(st.integers(0, 2)) == 0:
+            return toks
+        toks.append(draw(st.sampled_from(['/', '//'])))
+    prev_node_test = False
+    for i in range(n):
+        if i:
+            sep = draw(st.sampled_from(['/', '/', '//']))
+            if sep == '//' and prev_node_test and flag('no_node_test_before_dslash'):
+                sep = '/'
+            if sep == '//' and head == '/' and flag('no_abs_with_inner_dslash'):
+                sep = '/'
+            toks.append(sep)
+        sp = draw(step_pattern(d))
+        prev_node_test = 'node' in sp and sp[0] not in ('@', 'attribute')
+        toks += sp
+    return toks
+
+
+@st.composite
+def patterns(draw, depth=1, allow_key=False):
+    alts = [draw(location_path_pattern(depth, allow_key)) for _ in range(draw(st.sampled_from([1, 1, 1, 2, 3])))]
+    toks = []
+    for i, a in enumerate(alts):
+        if i:
+            toks.append('|')
+        toks += a
+    ws = draw(st.lists(st.sampled_from([' ', '', '', ' ']), min_size=1, max_size=4))
+    return {'pattern': render(toks, ws), 'ntok': len(toks), 'nalt': len(alts)}
